@@ -76,6 +76,13 @@ class Concatenator(Transformer):
             reindexed_data_list.append(reindexed)
 
         X_concat: DataArray = xr.concat(reindexed_data_list, dim=self.feature_name)
+        # The elements are joined on their sample labels; a sample that only some of them
+        # carry (e.g. entirely missing in one element) would come back as a block of NaNs
+        n_samples = X_concat.sizes[self.sample_name]
+        if any(data.sizes[self.sample_name] != n_samples for data in X):
+            raise ValueError(
+                "The list elements do not share the same samples (after dropping entirely missing samples from each element)."
+            )
         self.coords_out = X_concat.coords[self.feature_name]
 
         return X_concat
